@@ -292,14 +292,14 @@ PROPS = {
         "not_covered": ["ProverKey::from_slice, CommitKey::from_slice, Proof::from_bytes, PublicParameters::from_slice, CompressedCircuit::from_bytes bodies"],
     },
     "C20": {
-        "v_units": ["capacity.py"],
+        "v_units": ["capacity.py", "kernels.py"],
         "r": [("kzg", None)],
         "claim": "(a) aggregated opening: compute_aggregate_witness(p_0..p_k, z, v) == ruffini(sum_j v^j p_j, z) with POSITIONAL powers "
                  "(instances of 0,1,3,4 polynomials; pointwise loop abstracted to a polynomial operation); (b) batched check: "
                  "batch_challenge absorbs domain separator, length and every (point, commitment, evaluation, witness) in order before the "
                  "squeeze; batch_check rejects empty / mismatched batches before any arithmetic and otherwise tests "
                  "e(-sum u^i W_i, [x]_2) e(sum u^i (C_i + z_i W_i) - (sum u^i e_i) g, [1]_2) == 1 with every entry contributing "
-                 "(batch sizes 1-3); (c) degree rule: CommitKey::truncate(d) (Err(TruncatedDegreeIsZero) for 0, Err(TruncatedDegreeTooLarge) beyond the key, "
+                 "(batch sizes 1-3); (c) util::powers_of(x, d) == [x^0, .., x^d] in the field (loop invariant; the powers of the SRS secret); (d) degree rule: CommitKey::truncate(d) (Err(TruncatedDegreeIsZero) for 0, Err(TruncatedDegreeTooLarge) beyond the key, "
                  "else the prefix of d+1 powers, with the documented d == 1 quirk), max_degree == len - 1, PublicParameters::trim(n) keeps "
                  "n + 7 powers iff n + 6 <= max_degree, check_commit_degree_is_within_bounds: Err(PolynomialDegreeTooLarge) iff degree > max_degree.",
         "technique": "contract-based deductive verification: Verus (degree rule) + ring/trace contract checker (aggregate witness, batch check)",
